@@ -22,12 +22,12 @@ OPS = {"<": operator.lt, "<=": operator.le, ">": operator.gt, ">=": operator.ge}
 
 def floors(tier):
     q = tier == "quick"
-    return {"order-op": 200000 if q else 4000000, "equal-ordinals": 20000 if q else 400000, "foreign": 20000 if q else 400000,
-            "eq": 50000 if q else 1000000, "after-mutation": 50000 if q else 1000000, "ordinal": 50000 if q else 1000000, "sorted": 1500 if q else 30000}
+    return {"order-op": 200000 if q else 40000000, "equal-ordinals": 20000 if q else 4000000, "foreign": 20000 if q else 4000000,
+            "eq": 50000 if q else 10000000, "after-mutation": 50000 if q else 10000000, "ordinal": 50000 if q else 10000000, "sorted": 1500 if q else 300000}
 
 
 def generate(ctx):
-    n = ctx.budget(100000, 2000000)
+    n = ctx.budget(100000, 20000000)
     rng = ctx.rng
     per = 50
     for _ in range(max(1, n // per)):
